@@ -49,6 +49,9 @@ pub enum Mode {
     Controlled(Policy),
     /// free-running, but sleep a hash-determined 0..max_us at every took/wrote site
     Perturbed { seed: u64, max_us: u64 },
+    /// free-running, except that the worker which takes record number `record` is held for `hold_ms` at that hook
+    /// (no lock is held there): it falls behind the others by as many records as they can process in that time
+    Straggle { record: u64, hold_ms: u64 },
 }
 
 #[derive(Clone, Debug, PartialEq)]
@@ -229,6 +232,11 @@ impl Controller {
                         if h & 1 == 1 {
                             sleep_us = (h >> 8) % (max_us + 1);
                         }
+                    }
+                }
+                Mode::Straggle { record, hold_ms } => {
+                    if site == g.took_site && args[0] == record {
+                        sleep_us = hold_ms * 1000;
                     }
                 }
                 Mode::Controlled(_) => {
